@@ -161,6 +161,7 @@ def run(cfg, c):
                 c.prove_close('median is the row median (row %d)' % i, med[i], mref, info=fk(cfg, 'median-def'))
         return
     if kind == 'statsfun':
+        dt = object if not conc else float
         G = cuqi.geometry
         Ns = cfg['Ns']
         if cfg['geom'] == 'image2d':
@@ -180,6 +181,19 @@ def run(cfg, c):
         c.prove_close('variance of function-value samples', fv.variance(), var_ref, tol=1e-9, info=fk(cfg, 'fun-var'))
         fb = fv.burnthin(1, 1)
         c.prove('burnthin keeps function-value flags', (not fb.is_par) and fb.is_vec == fv.is_vec and fb.Ns == Ns - 1 and fb.geometry is geom, info=fk(cfg, 'fun-burnthin'))
+        # conversion / burnthin sequences: funvals taken on the full chain first, then burnthin, then funvals again
+        sb = smp.burnthin(1, 1)
+        fsb = sb.funvals
+        okshape = fsb.Ns == Ns - 1
+        c.prove('funvals(burnthin(S)) has the thinned length (after funvals(S) was taken)', okshape, info=fk(cfg, 'seq-length'))
+        if okshape:
+            for k in range(Ns - 1):
+                c.prove_close('funvals(burnthin(S))[%d] = converted sample %d' % (k, k + 1), np.asarray(fsb.samples[..., k], dtype=dt) if True else None, conv[k + 1], tol=1e-9, info=fk(cfg, 'seq-values'))
+            mref = sum(conv[2:], conv[1]) / (Ns - 1)
+            c.prove_close('mean of funvals(burnthin(S))', fsb.mean(), mref, tol=1e-9, info=fk(cfg, 'seq-mean'))
+        back = fsb.parameters
+        c.prove_close('funvals(burnthin(S)).parameters = the thinned parameter samples', back.samples, arr[:, 1:], tol=1e-8, info=fk(cfg, 'seq-roundtrip'))
+        c.prove_close('source samples untouched by the conversions', smp.samples, arr, info=fk(cfg, 'seq-source'))
         return
     if kind == 'arviz':
         d, Ns = cfg['d'], cfg['Ns']
